@@ -78,10 +78,15 @@ Definition documented : list (str * list site) := [
   (s2l "output_path", [ mk init_py "Project.__init__" "test" ""; mk init_py "Project.__init__" "value" "" ] ++ dir_sites);
   (* README project_name_override and package_name_override: name of the project / package: directory names and the metadata files *)
   (s2l "project_name_override",
-     [ mk init_py "Project.__init__" "value" ""; mk init_py "Project.__init__" "*" "self.project_name"; mk init_py "Project.__init__" "*" "self.package_name" ]
+     [ mk init_py "Project.__init__" "value" "";
+       (* the derived package name is project_name.replace("-", "_") - the only transformation the project name may go through *)
+       mk init_py "Project.__init__" "method:replace" "self.project_name";
+       mk init_py "Project.__init__" "value" "self.project_name"; mk init_py "Project.__init__" "arg:update:project_name" "self.project_name";
+       mk init_py "Project.__init__" "value" "self.package_name"; mk init_py "Project.__init__" "arg:update:package_name" "self.package_name" ]
      ++ dir_sites ++ name_templates "project_name" ++ name_templates "package_name");
   (s2l "package_name_override",
-     [ mk init_py "Project.__init__" "value" ""; mk init_py "Project.__init__" "*" "self.package_name" ] ++ dir_sites ++ name_templates "package_name");
+     [ mk init_py "Project.__init__" "value" ""; mk init_py "Project.__init__" "value" "self.package_name";
+       mk init_py "Project.__init__" "arg:update:package_name" "self.package_name" ] ++ dir_sites ++ name_templates "package_name");
   (* README package_version_override: "the package version of the generated client": pyproject.toml / setup.py only *)
   (s2l "package_version_override",
      [ mk init_py "Project.__init__" "value" ""; mk init_py "Project.__init__" "arg:update:package_version" "self.version";
